@@ -309,6 +309,10 @@ def sym(name, *labels):
     return Poly.atom(('sym', name, tuple(labels)))
 
 
+# interpolation is linear in its table values (third argument)
+LINEAR_FNS = {'interp', 'lininterp'}
+
+
 def mk_fn(name, *args):
     """Uninterpreted function with the few algebraic rules the properties need."""
     if name == 'ln' and len(args) == 1 and args[0][0] == 'P':
@@ -334,6 +338,15 @@ def mk_fn(name, *args):
         if p.is_const() and p.const_value().denominator == 1 and abs(p.const_value()) <= 40:
             v = int(p.const_value())
             return Poly.const(Fraction(10) ** v if v >= 0 else Fraction(1, 10 ** (-v)))
+    if name in LINEAR_FNS and len(args) >= 3 and args[2][0] == 'B':
+        lab, fp = args[2][1], Poly.from_key(args[2][2])
+        out = Poly()
+        for m, c in fp.t.items():
+            dep = tuple((a, e) for a, e in m if lab in atom_labels(a))
+            ind = tuple((a, e) for a, e in m if lab not in atom_labels(a))
+            a2 = ('B', lab, Poly({dep: Fraction(1)}).key())
+            out = out + Poly({ind: c}) * Poly.atom(('fn', name) + tuple(args[:2]) + (a2,) + tuple(args[3:]))
+        return out
     if name == 'rev' and len(args) == 1 and args[0][0] == 'B':
         inner = Poly.from_key(args[0][2])
         if inner.is_monomial():
